@@ -5,7 +5,7 @@
    criterion matrices the discrete model M_Select.v is run on.
    Definitions only. *)
 From Coq Require Import ZArith List Bool.
-From Sky Require Import Num G_select.
+From Sky Require Import Num G_select M_Select.
 Import ListNotations.
 
 Section Crit.
@@ -66,4 +66,17 @@ Section Crit.
     cmat (fun s e => angerr_crit a b floor (fst s) (snd s) (e_ra e) (e_dec e) (e_err e)).
   Definition row_psifunc c (evs : list ev4) : list bool :=
     map (fun e => psifunc_crit c (e_psi e) (e_err e)) evs.
+
+  (* the method objects as the concrete classes build them: sources (ra, dec), events ev4 *)
+  Definition decband (delta : T) : meth (T * T) ev4 :=
+    MBand KDec (fun s e => dec_crit delta (snd s) (e_dec e)).
+  Definition raband (delta : T) : meth (T * T) ev4 :=
+    MBand KRA (fun s e => raband_crit delta (fst s) (snd s) (e_ra e)).
+  Definition spatialbox (delta : T) : meth (T * T) ev4 :=
+    MBox sb_batch_size
+         (fun s e => box_ra_crit delta (fst s) (snd s) (e_ra e))
+         (fun s e => box_ra_crit_b delta (fst s) (snd s) (e_ra e))
+         (fun s e => box_dec_crit delta (snd s) (e_dec e)).
+  Definition angerrofpsi (a b fl : T) : meth (T * T) ev4 :=
+    MPair (fun s e => angerr_crit a b fl (fst s) (snd s) (e_ra e) (e_dec e) (e_err e)).
 End Crit.
